@@ -269,6 +269,13 @@ type msgSpec struct {
 
 func (m msgSpec) shp() string {
 	if m.shape == "" {
+		n := m.size - 23 - len(m.key)
+		if m.hdr {
+			n -= 4
+		}
+		if n == 0 { // no room for value bytes: message() then gives an empty, non-nil Value
+			return "ke"
+		}
 		return "kv"
 	}
 	return m.shape
